@@ -85,9 +85,24 @@ class RecFile:
             self.ops.append(["end"])
             self.dirty = False
 
+    def mark_fail(self):
+        """the observer call in progress raised"""
+        self.ops.append(["fail"])
+        self.dirty = False
 
-def build(dirpath, mode, seed, kill=None):
-    """GrandCanonical run writing log / trajectory / restart through instrumented handles on real files"""
+
+OLD_LOG = "# log of an earlier simulation\n     Class       Step   Epot[eV]\nGrandCanonical          0     -1.000\n"
+OLD_TRAJ = '1\nLattice="8.0 0.0 0.0 0.0 8.0 0.0 0.0 0.0 8.0" Properties=species:S:1:pos:R:3 pbc="T T T"\nCu       1.00000000       1.00000000       1.00000000\n'
+
+
+class Boom(RuntimeError):
+    pass
+
+
+def build(dirpath, mode, seed, kill=None, old=False, boom_at=None):
+    """GrandCanonical run writing log / trajectory / restart through instrumented handles on real files.
+    old: the log and trajectory paths already hold the output of an earlier simulation ('a' mode appends to it);
+    boom_at: a user-supplied log column (not the first one) raises at its boom_at-th evaluation"""
     from quansino.mc.gcmc import GrandCanonical
     from quansino.moves.displacement import DisplacementMove
     from quansino.moves.exchange import ExchangeMove
@@ -98,24 +113,46 @@ def build(dirpath, mode, seed, kill=None):
     atoms.calc = Harmonic(k=0.05, centers=atoms.positions, eps=0.01)
     files = {}
     for kind in ("log", "traj", "restart"):
+        if old and kind != "restart":
+            with open(os.path.join(dirpath, f"{kind}.out"), "w") as fh:
+                fh.write(OLD_LOG if kind == "log" else OLD_TRAJ)
         real = open(os.path.join(dirpath, f"{kind}.out"), mode + ("+" if kind == "restart" else ""))  # noqa: SIM115
         files[kind] = RecFile(real, kill_at=kill[1] if kill and kill[0] == kind else None)
     mc = GrandCanonical(atoms, exchange_atoms=Atoms("Cu", positions=[[0, 0, 0]]), temperature=3000.0, chemical_potential=-3.7, number_of_exchange_particles=3, max_cycles=2,
                         seed=seed, logfile=files["log"], trajectory=files["traj"], restart_file=files["restart"], logging_interval=1, logging_mode=mode)
     mc.add_move(ExchangeMove(np.arange(3)), name="exch")
     mc.add_move(DisplacementMove(np.arange(3), Ball(0.3)), name="disp", probability=0.3)
+    if boom_at is not None:
+        cnt = {"k": 0}
+
+        def column(cnt=cnt):
+            cnt["k"] += 1
+            if cnt["k"] == boom_at:
+                raise Boom("transient failure of a user-supplied column")
+            return float(len(mc.atoms))
+
+        mc.default_logger.add_field("Natoms", column, "{:10.1f}")
     return mc, files
 
 
 def drive(mc, files, steps):
     """-> list of (step_count, natoms) after each round of observer calls"""
     saved = []
-    for st in mc.irun(steps):
-        for f in files.values():
-            f.mark_end()
-        saved.append((int(mc.step_count), len(mc.atoms)))
-        for _ in st:
-            pass
+    target = int(mc.step_count) + steps
+    while True:
+        try:
+            for st in mc.irun(target - int(mc.step_count)):
+                for f in files.values():
+                    f.mark_end()
+                saved.append((int(mc.step_count), len(mc.atoms)))
+                for _ in st:
+                    pass
+            break
+        except Boom:
+            # the logger call raised: the observer round is left, the user carries on with another run call
+            files["log"].mark_fail()
+            for k in ("traj", "restart"):
+                files[k].mark_end()
     for f in files.values():
         f.mark_end()
     saved.append((int(mc.step_count), len(mc.atoms)))
@@ -125,10 +162,10 @@ def drive(mc, files, steps):
 class Model:
     """Python mirror of Files.tla's file semantics, on bytes"""
 
-    def __init__(self, mode):
-        self.disk = ""
+    def __init__(self, mode, old=""):
+        self.disk = old
         self.buf = []
-        self.pos = 0
+        self.pos = len(old)
         self.mode = mode
 
     def apply(self, pending):
@@ -202,13 +239,14 @@ def judge(kind, surv, completed_texts, docs, done, cur_text=""):
     return None
 
 
-def analyse(rep, kind, mode, ops, tag):
+def analyse(rep, kind, mode, ops, tag, old=""):
     """B1: walk the op log with the byte model; judge every crash content and the content after each call"""
     from ase.io import read as ase_read
     from ase.io.jsonio import read_json
 
-    m = Model(mode)
-    completed = []
+    m = Model(mode, old)
+    completed = [old] if old else []
+    nold_frames = 1 if (old and kind == "traj") else 0
     cur = []
     docs = set()
     done = 0
@@ -225,6 +263,11 @@ def analyse(rep, kind, mode, ops, tag):
                     rep.violation("restart-rewrite-not-atomic", f"{bad[1]} (mode '{mode}', crash between truncate and flush of restart observer call {done})", {"kind": kind, "mode": mode, "op_index": idx, "ops_tail": ops[max(0, idx - 4): idx + 1]})
                     continue
                 rep.violation(f"crash:{bad[0]}:{window}:{tag}", f"{bad[1]} (mode '{mode}', crash before op {idx} '{o[0]}', {done} calls completed)", {"kind": kind, "mode": mode, "op_index": idx, "ops_tail": ops[max(0, idx - 4): idx + 1], "survivor": surv[-300:]})
+        if o[0] == "fail":
+            if cur:
+                rep.violation(f"failed-call-left-partial-record:{kind}:{tag}", f"a {kind} observer call that raised left {sum(len(c) for c in cur)} bytes of a partial record in the file or its buffer (mode '{mode}', after {done} completed calls): {''.join(cur)[-80:]!r}", {"kind": kind, "ops_tail": ops[max(0, idx - 5): idx + 1]})
+            prev_op = o[0]
+            continue
         if o[0] == "end":
             m_ok = (m.buf == [])
             text = "".join(cur)
@@ -249,7 +292,7 @@ def analyse(rep, kind, mode, ops, tag):
                 else:
                     try:
                         frames = ase_read(io.StringIO(m.disk), index=":", format="extxyz")
-                        if len(frames) != done + 1:
+                        if len(frames) != done + 1 + nold_frames:
                             raise ValueError(f"{len(frames)} frames")
                     except Exception as ex:  # noqa: BLE001
                         rep.violation(f"after-call:traj:frames:{tag}", f"after trajectory call {done} the file does not parse as {done + 1} extended-XYZ frames: {ex}", {})
@@ -263,7 +306,7 @@ def analyse(rep, kind, mode, ops, tag):
     return ncrash
 
 
-def tla_trace(kind, mode, ops):
+def tla_trace(kind, mode, ops, old=""):
     """op log -> Files_Trace record: every write chunk becomes two units so that a torn write is representable"""
     out = []
     code = {"log": 1, "traj": 2, "restart": 3}[kind]
@@ -274,7 +317,7 @@ def tla_trace(kind, mode, ops):
             out.append({"op": "w", "units": [[code, ci, 1], [code, ci, 2]]})
         else:
             out.append({"op": o[0], "units": []})
-    return {"kind": kind, "mode": mode, "ops": out}
+    return {"kind": kind, "mode": mode, "ops": out, "old": [[code, 0, 1]] if old else []}
 
 
 def observer_ownership(rep, tier):
@@ -434,6 +477,46 @@ def run(tier: str) -> int:
                         rep.error(f"byte model and real file disagree for {kind} (mode {mode}): {len(on_disk)} vs {len(m.disk)} bytes")
                 if len(rep.samples) < 3:
                     rep.sample({"mode": mode, "seed": seed, "restart_document_sizes": sizes, "log_ops_head": [o[0] for o in files["log"].ops[:10]], "restart_ops_head": [o[0] for o in files["restart"].ops[:10]]})
+        # ---- further histories: a path that already holds an earlier simulation's output ('a' mode), and an observer
+        # call that fails (a user-supplied log column raises once, the user carries on) --------------------------------
+        for hi, (mode, has_old, boom) in enumerate((("a", True, None), ("a", False, 4), ("w", False, 3), ("a", True, 6), ("w", False, 2))):
+            d = os.path.join(tmp, f"hist_{hi}")
+            os.makedirs(d)
+            seed = rep.seed % 1000 + 301 + hi
+            mc, files = build(d, mode, seed, old=has_old, boom_at=boom)
+            try:
+                drive(mc, files, steps)
+            except Exception as ex:  # noqa: BLE001
+                rep.violation(f"raise:history:{'old-content' if has_old else ''}:{'failing-column' if boom else ''}:{type(ex).__name__}", f"run with {'pre-existing files ' if has_old else ''}{'a failing log column ' if boom else ''}(mode '{mode}') raised {ex!r}", {"mode": mode})
+                continue
+            finally:
+                try:
+                    mc.close()
+                except Exception:  # noqa: BLE001
+                    pass
+            for kind, f in files.items():
+                old_text = (OLD_LOG if kind == "log" else OLD_TRAJ) if (has_old and kind != "restart") else ""
+                tag = kind + (":old-content" if has_old else "") + (":failing-column" if boom else "")
+                nops += len(f.ops)
+                ncrash += analyse(rep, kind, mode, f.ops, tag, old_text)
+                recs.append(tla_trace(kind, mode, f.ops, old_text))
+                rep.count((kind, mode, "old" if has_old else "", "boom" if boom else ""))
+                on_disk = open(os.path.join(d, f"{kind}.out")).read()
+                m = Model(mode, old_text)
+                for o in f.ops:
+                    if o[0] not in ("end", "fail"):
+                        m.op(o)
+                if on_disk != m.disk:
+                    rep.error(f"byte model and real file disagree for {kind} (mode {mode}, history {hi}): {len(on_disk)} vs {len(m.disk)} bytes")
+                if kind == "log":
+                    # every line this run added is complete: the header once, then rows with as many columns as the header
+                    added = on_disk[len(old_text):].splitlines()
+                    ncol = len(added[0].split()) if added else 0
+                    torn = [ln for ln in added[1:] if len(ln.split()) != ncol]
+                    if boom and not any(o[0] == "fail" for o in f.ops):
+                        rep.error(f"vacuity: the failing column never fired (history {hi})")
+                    if not added or "Step" not in added[0] or torn or not on_disk.endswith("\n"):
+                        rep.violation(f"log-not-well-formed:{tag}", f"log (mode '{mode}'): the lines added by this run are not a header followed by complete rows: {('first line ' + repr(added[0][:60])) if added and 'Step' not in added[0] else ''} {('malformed row ' + repr(torn[0][:120])) if torn else ''}", {"mode": mode, "added_head": added[:3], "torn": torn[:2]})
         # ---- (A) TLC on the recorded op logs --------------------------------------------------------
         tf = os.path.join(tmp, "ops.json")
         json.dump(recs, open(tf, "w"))
